@@ -168,6 +168,10 @@ func srvUDP(t *testing.T, con bool, v int64, code codes.Code, extra ...message.O
 	return line
 }
 
+// preludeValue (`srvp` lines, -2 = none): an EARLIER request on the same connection carried No-Response with this value (its own
+// message ID and token, answered / suppressed as it deserves); the request that is judged comes second
+var preludeValue int64 = -2
+
 // dupRequest (`srvd` lines): the same datagram is handed to the connection a second time (the peer's retransmission after a
 // lost acknowledgement); what goes out for the copy is rendered like the first answer and compared with it
 var dupRequest bool
@@ -191,6 +195,15 @@ func srvUDPOnce(t *testing.T, con bool, v int64, code codes.Code, coincidence *b
 				set = setCalls(code, func(c codes.Code) error { return w.SetResponse(c, message.TextPlain, nil) })
 			}
 		}})
+		if preludeValue > -2 {
+			savedMID, savedTok := reqMID, reqToken
+			reqMID, reqToken = reqMID+0x0101, message.Token{0x9e, 0x11}
+			_ = cc.Process(nil, buildReq(true, con, preludeValue))
+			reqMID, reqToken = savedMID, savedTok
+			synctest.Wait()
+			s.TakeSent()
+			set = "nocall"
+		}
 		if err := cc.Process(nil, buildReq(true, con, v, extra...)); err != nil {
 			set = "process-error"
 		}
@@ -556,6 +569,20 @@ func TestC20(t *testing.T) {
 				fmt.Fprintln(w, srvTCP(t, v, callCodes[0]))
 			}
 			callCodes = nil
+		case len(f) == 6 && f[0] == "srvp" && f[1] == "udp":
+			// srvp udp <con|non> <v|-> <code> <earlier v|->: the judged request is the SECOND on its connection
+			handlerMutates, badLength = nil, nil
+			preludeValue = -1
+			if f[5] != "-" {
+				preludeValue, _ = strconv.ParseInt(f[5], 10, 64)
+			}
+			v := int64(-1)
+			if f[3] != "-" {
+				v, _ = strconv.ParseInt(f[3], 10, 64)
+			}
+			c, _ := strconv.ParseUint(f[4], 10, 16)
+			fmt.Fprintln(w, srvUDP(t, f[2] == "con", v, codes.Code(c)))
+			preludeValue = -2
 		case (len(f) == 5 || len(f) == 6) && (f[0] == "srv" || f[0] == "srvd" && f[1] == "udp" && f[2] == "con"):
 			dupRequest = f[0] == "srvd"
 			defer func() { dupRequest = false }()
